@@ -229,8 +229,19 @@ class Histogram1D(ObjectWithBinning, HistogramBase):
         underflow = np.nan
         overflow = np.nan
         keep_missed = False
+        if isinstance(index, tuple):
+            if len(index) != 1:
+                raise IndexError(
+                    f"Too many indices ({len(index)}) to select from 1D histogram"
+                )
+            return self[index[0]]
         if isinstance(index, int):
             return self.bins[index], self.frequencies[index]
+        if isinstance(index, (list, np.ndarray)):
+            index_array = np.asarray(index)
+            if index_array.dtype != bool and index_array.size > 0:
+                # Bins cannot change their order or repeat: take them in increasing order
+                index = np.unique(np.arange(self.bin_count)[index_array])
         if isinstance(index, np.ndarray):
             if index.dtype == bool:
                 if index.shape != (self.bin_count,):
